@@ -39,7 +39,11 @@ RULE = ('cases are of three kinds. func: (frequency grid, amplitude vector, targ
         'through the object API, the custom-matrix form (matrix float64/float32/Fortran-ordered/read-only/nested list) and '
         'the bandwidth functions, a second object of the same shape processed in between. history: 6..14 operations on one '
         'object (reads, regenerations with options, every way of setting the targets, value mutators same/shorter/longer, '
-        'explicit Fourier regeneration, bandwidth / custom-matrix calls, twins sharing a caller array). distinct = digest '
+        'explicit Fourier regeneration, bandwidth / custom-matrix calls, twins sharing a caller array). large: 12 (quick) / 96 '
+        '(thorough) problems with n_fa * n_targets next to 2**18 .. 2**23 (thorough 2**24), just below / just above / 1.4 x each '
+        'power of two, as many targets on a 1-8k-bin grid, as the None default, or as a long spectrum with ~50 targets, plus '
+        'a 170000-sample Signal with the default 50 smoothing frequencies; there the scalar oracle judges first, last and '
+        '6..30 pseudo-random targets, every other clause (finite, bounds, constant, scaling, matrix form) all targets. distinct = digest '
         'of all inputs of the case; non-trivial = at least two distinct |A| / record values and at least one target.')
 ASSUMPTIONS = ['frequencies and targets are finite, positive real ndarrays (a single leading zero-frequency bin allowed); '
                'amplitudes finite; python lists / tuples / scalars for the three array arguments of the function forms are '
@@ -227,6 +231,43 @@ def _reference(fnz, anz, tg, band):
     return np.array(O.smooth(_columns(fnz, tg, band), anz.tolist()), dtype=float)
 
 
+SUBSET_PAIRS = 2 ** 19          # above this many (frequency, target) pairs the scalar oracle judges a subset of the targets
+LARGE_SFX = '(large: target subset)'
+
+
+def _subset(fnz, tg):
+    """Indices of the targets judged against the scalar oracle: all of them for ordinary sizes; for large problems first,
+    last and a pseudo-random draw (a function of the sizes and end values only, so that every call of a case and its replay
+    judge the same targets) of 8..32 targets - the oracle costs O(n_fa) per target."""
+    n, k = len(tg), len(fnz)
+    if n * k <= SUBSET_PAIRS:
+        return None
+    m = int(min(32, max(8, 2 ** 20 // k)))
+    if m >= n:
+        return None
+    seed = int(core.digest(n, k, float(tg[0]), float(tg[-1]), float(fnz[0]), float(fnz[-1])), 16)
+    r = np.random.default_rng(seed)
+    return np.unique(np.concatenate([[0, n - 1], r.integers(0, n, size=m - 2)]))
+
+
+def _compare(fnz, anz, tg, band, got, scale, rtol):
+    """(ok, description, reference, the compared part of got, large?) of a smoothed spectrum against the oracle."""
+    got = np.asarray(got)
+    idx = _subset(fnz, tg)
+    if idx is None:
+        ref = _reference(fnz, anz, tg, band)
+        return tol.close(got, ref, scale=scale, rtol=rtol), tol.describe(got, ref, scale=scale, rtol=rtol), ref, got, False
+    if got.shape != (len(tg),):
+        return False, 'shape %s, expected (%d,)' % (got.shape, len(tg)), None, got[:64], True
+    if len(fnz) * len(idx) > 2 ** 18:
+        _MEMO.clear()
+    ref = _reference(fnz, anz, tg[idx], band)
+    g = got[idx]
+    return (tol.close(g, ref, scale=scale, rtol=rtol),
+            'on the %d judged targets %s..: %s' % (len(idx), idx[:6].tolist(), tol.describe(g, ref, scale=scale, rtol=rtol)),
+            ref, g, True)
+
+
 def _mags(anz):
     """|A| as float64; integer amplitudes go to float BEFORE abs (the most negative int64 has no int64 magnitude)."""
     anz = np.asarray(anz)
@@ -271,15 +312,18 @@ def check_smooth(ctx, at, freqs, spec, targets, band, result, clause='smooth==we
         return
     fnz, anz, tg, sfx = d
     rtol, slack_rel, _ = PREC[sfx]
-    ref = _reference(fnz, anz, tg, band)
     got = np.asarray(result)
     scale = _scale(anz)
     if raw is None:
         raw = _raw_func(freqs, spec, targets, band)
-    ctx.check(tol.close(got, ref, scale=scale, rtol=rtol), clause + sfx,
-              lambda: _wit(at, raw, got=got, expected=ref, band=band),
-              '%s(n_f=%d, n_targets=%d, band=%r): %s' % (at, len(fnz), len(tg), band,
-                                                         tol.describe(got, ref, scale=scale, rtol=rtol)))
+    ok_eq, desc, ref, gsub, large = _compare(fnz, anz, tg, band, got, scale, rtol)
+    if large:
+        ctx.observe('large-calls(n_fa*n_targets > 2**19)')
+        if len(fnz) * len(tg) > 2 ** 22:
+            ctx.observe('large-calls(n_fa*n_targets > 2**22)')
+    ctx.check(ok_eq, clause + sfx + (LARGE_SFX if large else ''),
+              lambda: _wit(at, raw, got=gsub, expected=ref, band=band),
+              '%s(n_f=%d, n_targets=%d, band=%r): %s' % (at, len(fnz), len(tg), band, desc))
     if not extras:
         return
     n_on = int(np.sum(np.isin(tg, fnz)))
@@ -287,9 +331,9 @@ def check_smooth(ctx, at, freqs, spec, targets, band, result, clause='smooth==we
         ctx.observe('targets-exactly-on-grid', n_on)
     if np.any(tg < fnz[0] / 3) or np.any(tg > 3 * fnz[-1]):
         ctx.observe('calls-with-targets-outside-[f1/3,3fmax]')
-    finite = got.shape == ref.shape and bool(np.all(np.isfinite(got)))
-    ctx.check(finite, 'smooth.finite', lambda: _wit(at, raw, got=got, band=band),
-              '%s returned non-finite values or a wrong shape %s (expected %s)' % (at, got.shape, ref.shape))
+    finite = got.shape == (len(tg),) and bool(np.all(np.isfinite(got)))
+    ctx.check(finite, 'smooth.finite', lambda: _wit(at, raw, got=got[:4096], band=band),
+              '%s returned non-finite values or a wrong shape %s (expected (%d,))' % (at, got.shape, len(tg)))
     if finite:
         mags = _mags(anz)
         lo, hi = float(mags.min()), float(mags.max())
@@ -298,7 +342,7 @@ def check_smooth(ctx, at, freqs, spec, targets, band, result, clause='smooth==we
             inr = bool(np.all(got.imag == 0) and np.all(got.real >= lo - slack) and np.all(got.real <= hi + slack))
         else:
             inr = bool(np.all(got >= lo - slack) and np.all(got <= hi + slack))
-        ctx.check(inr, 'smooth.within[min|A|,max|A|]' + sfx, lambda: _wit(at, raw, got=got, lo=lo, hi=hi, band=band),
+        ctx.check(inr, 'smooth.within[min|A|,max|A|]' + sfx, lambda: _wit(at, raw, got=got[:4096], lo=lo, hi=hi, band=band),
                   '%s: smoothed values [%r, %r] leave [min|A|, max|A|] = [%r, %r]'
                   % (at, np.min(got.real), np.max(got.real), lo, hi))
 
@@ -342,22 +386,31 @@ def _post_matrix(args, kwargs, result, pre):
         return
     fnz, _, tg, sfx = d
     rtol, _, cs_tol = PREC[sfx]
-    cols = _columns(fnz, tg, band)
-    ref = np.array(O.matrix(cols), dtype=float).reshape(len(fnz), len(tg))
     got = np.asarray(result)
-    wit = lambda: _wit(at, raw, got=got, band=band)
-    shape_ok = got.shape == ref.shape
+    shape_ok = got.shape == (len(fnz), len(tg))
+    idx = _subset(fnz, tg)
+    large = idx is not None
+    if large and len(fnz) * len(idx) > 2 ** 18:
+        _MEMO.clear()
+    tsub = tg if idx is None else tg[idx]
+    cols = _columns(fnz, tsub, band)
+    ref = np.array(O.matrix(cols), dtype=float).reshape(len(fnz), len(tsub))
+    gsub = got if (idx is None or not shape_ok) else got[:, idx]
+    wit = lambda: _wit(at, raw, got=gsub if gsub.size <= 2 ** 16 else gsub[:64], band=band, judged_columns=idx)
     cscale = np.max(ref, axis=0)[np.newaxis, :]
-    ctx.check(shape_ok and tol.close(got, ref, scale=cscale, rtol=rtol), 'matrix==window/sum' + sfx, wit,
+    ctx.check(shape_ok and tol.close(gsub, ref, scale=cscale, rtol=rtol), 'matrix==window/sum' + sfx + (LARGE_SFX if large else ''), wit,
               'smoothing matrix (n_f=%d, n_targets=%d, band=%r): %s'
-              % (len(fnz), len(tg), band, tol.describe(got, ref, scale=cscale, rtol=rtol)
-                 if shape_ok else 'shape %s expected %s' % (got.shape, ref.shape)))
+              % (len(fnz), len(tg), band, tol.describe(gsub, ref, scale=cscale, rtol=rtol)
+                 if shape_ok else 'shape %s expected %s' % (got.shape, (len(fnz), len(tg)))))
     if not shape_ok:
         return
     with np.errstate(invalid='ignore'):
         ctx.check(bool(np.all(got >= 0)), 'matrix.nonneg', wit, 'smoothing matrix has a negative or NaN entry (min %r)' % np.min(got))
-    colsum = np.array([math.fsum(got[:, j].tolist()) if np.all(np.isfinite(got[:, j])) else np.nan
-                       for j in range(got.shape[1])])
+    if large:
+        colsum = np.sum(got, axis=0)          # pairwise summation: good to a few ulp, every column
+    else:
+        colsum = np.array([math.fsum(got[:, j].tolist()) if np.all(np.isfinite(got[:, j])) else np.nan
+                           for j in range(got.shape[1])])
     with np.errstate(invalid='ignore'):
         ctx.check(bool(np.all(np.abs(colsum - 1.0) <= cs_tol)), 'matrix.colsum==1' + sfx, wit,
                   'column sums of the smoothing matrix differ from 1: worst %r'
@@ -374,7 +427,7 @@ def _post_custom(args, kwargs, result, pre):
         return
     st = pre[id(asig)][1]
     mm = np.asarray(_sn(pre, m))
-    raw = _raw_sig(st, matrix=mm)
+    raw = _raw_sig(st, matrix=mm if mm.size <= 2 ** 18 else None)
     _purity_args(ctx, at, pre, raw)
     _purity_sig(ctx, at, asig, st, False, False, raw)
     ent = _entry_fa(st)
@@ -387,10 +440,14 @@ def _post_custom(args, kwargs, result, pre):
         ctx.observe('out-of-domain:%s' % at)
         return
     mags = [abs(x) for x in spec[1:].tolist()]
+    got = np.asarray(result)
+    if mm.size > SUBSET_PAIRS and mm.shape[1] > 8 and got.shape == (mm.shape[1],):
+        cidx = np.unique(np.concatenate([[0, mm.shape[1] - 1], np.random.default_rng(mm.shape[0]).integers(0, mm.shape[1], size=6)]))
+        ctx.observe('large-custom-matrix-calls(column subset)')
+        got, mm = got[cidx], mm[:, cidx]
     ref, scale = O.apply_matrix(mags, mm.tolist())
     ref = np.array(ref, dtype=float)
     scale = np.array(scale, dtype=float)
-    got = np.asarray(result)
     rtol = 1e-5 if (mm.dtype == np.float32 or spec.dtype == np.complex64) else RTOL   # numpy evaluates the dot in single
     ctx.check(tol.close(got, ref, scale=scale, rtol=rtol, atol=1e-300), 'custom-matrix==sum|A_i|M_ij(i>=1)',
               lambda: _wit(at, raw, got=got, expected=ref),
@@ -438,15 +495,15 @@ def _judge_generation(self, st, given, gsnap, band, at):
         return
     fnz, anz, t, prec = d
     rtol = PREC[prec][0]
-    ref = _reference(fnz, anz, t, band)
     scale = _scale(anz)
+    okc, desc, ref, gsub, _lg = _compare(fnz, anz, t, band, got, scale, rtol)
     now = np.asarray(self._smooth_fa_freqs)
-    ok = tol.close(got, ref, scale=scale, rtol=rtol) and bool(self._cached_smooth_fa) and \
+    ok = okc and bool(self._cached_smooth_fa) and \
         now.shape == np.asarray(use).shape and bool(np.all(now == np.asarray(use)))
     ctx.check(ok, 'signal.gen_smooth==weighted-mean',
-              lambda: _wit(at, raw, got=np.asarray(got), expected=ref, band=band, targets_now=now),
+              lambda: _wit(at, raw, got=gsub, expected=ref, band=band, targets_now=now[:4096]),
               '%s(band=%r, targets %s): stored spectrum %s; cached flag %r; targets stored == targets used: %r'
-              % (at, band, 'given' if given is not None else 'kept', tol.describe(got, ref, scale=scale, rtol=rtol),
+              % (at, band, 'given' if given is not None else 'kept', desc,
                  self._cached_smooth_fa, now.shape == np.asarray(use).shape and bool(np.all(now == np.asarray(use)))))
 
 
@@ -477,12 +534,11 @@ def _post_prop(self, result, st):
         return
     fnz, anz, t, prec = d
     rtol = PREC[prec][0]
-    ref = _reference(fnz, anz, t, band)
     scale = _scale(anz)
-    ctx.check(tol.close(result, ref, scale=scale, rtol=rtol), 'signal.smooth_fa_spectrum==weighted-mean',
-              lambda: _wit(at, raw, got=np.asarray(result), expected=ref, band=band, was_cached=was_cached),
-              'Signal.smooth_fa_spectrum (band=%r, cached before=%r): %s'
-              % (band, was_cached, tol.describe(result, ref, scale=scale, rtol=rtol)))
+    okc, desc, ref, gsub, _lg = _compare(fnz, anz, t, band, result, scale, rtol)
+    ctx.check(okc, 'signal.smooth_fa_spectrum==weighted-mean',
+              lambda: _wit(at, raw, got=gsub, expected=ref, band=band, was_cached=was_cached),
+              'Signal.smooth_fa_spectrum (band=%r, cached before=%r): %s' % (band, was_cached, desc))
     ctx.observe('property-read-cached' if was_cached else 'property-read-uncached')
 
 
@@ -950,7 +1006,7 @@ def targets_in_form(t, form):
     return view_of(np.asarray(t, dtype=float), form)
 
 
-def gen_signal_case(rng, long_n=None):
+def gen_signal_case(rng, long_n=None, default_targets=False):
     n = draw_n(rng) if long_n is None else int(long_n)
     if long_n is None and rng.random() < 0.03:
         n = int(rng.choice([1, 2]))
@@ -962,7 +1018,7 @@ def gen_signal_case(rng, long_n=None):
     grid, _ = fourier_grid(max(n, 3), dt)
     how = ['default', 'ctor', 'setter', 'setter_frequencies', 'range', 'gen_arg', 'by_range'][int(rng.integers(7))]
     if long_n is not None:
-        how = 'ctor'
+        how = 'default' if default_targets else 'ctor'
     targets, rng_lim, tkind = None, None, 'default-logspace'
     if how in ('range', 'by_range'):
         lo = float(10 ** rng.uniform(-2, 0.5))
@@ -985,6 +1041,8 @@ def gen_signal_case(rng, long_n=None):
         case['long'] = {'seed': int(rng.integers(1 << 30)), 'n': int(long_n)}
         case['random_matrix_seed'] = None
         case['matrix_form'] = None
+    if default_targets:
+        rcls = 'large-record(131072 bins x 50 default targets)'
     return case, 'signal:%s:%s:%s' % (rcls, how, tkind)
 
 
@@ -1058,7 +1116,7 @@ def gen_history_case(rng):
 
 # ------------------------------------------------------------------------------------------------ workload: drivers
 def _nontrivial(case):
-    if case.get('long'):
+    if case.get('long') or case.get('kind') == 'large':
         return True
     if case['kind'] == 'func':
         if case.get('reject') and len(case['freqs']) < 2:
@@ -1558,6 +1616,117 @@ def run_history_case(eqsig, ctx, c):
               'caller arrays number %s handed to the object changed during the history' % bad)
 
 
+# ------------------------------------------------------------------------------------------------ workload: large sizes
+# (e, side, mode): product n_fa * n_targets next to 2**e; side -1 / +1 = just below / above the power of two, 0 = 1.4 x
+LARGE_QUICK = [(22, +1, 'none'), (19, -1, 'many-targets'), (23, -1, 'many-targets'), (20, +1, 'none'),
+               (22, -1, 'many-targets'), (21, +1, 'long-record'), (22, 0, 'long-record'), (18, +1, 'none'),
+               (22, +1, 'many-targets'), (23, -1, 'none'), (21, -1, 'none'), (22, 0, 'many-targets')]
+
+
+def gen_large_case(rng, e, side, mode):
+    """Recipe (materialised deterministically by run_large_case) of a problem with n_fa * n_targets next to 2**e."""
+    prod = 2 ** e if side else int(2 ** e * 1.4)
+    if mode == 'none':
+        n_nz = int(np.sqrt(prod))
+        while side > 0 and n_nz * n_nz <= prod:
+            n_nz += 1
+        while side < 0 and n_nz * n_nz >= prod:
+            n_nz -= 1
+        n_t = None
+        actual = n_nz * n_nz
+    else:
+        if mode == 'many-targets':
+            n_nz = int(rng.choice([1023, 2047, 4095, 4096, 8191]))
+        else:
+            n_t0 = int(rng.choice([50, 64, 33]))
+            n_nz = max(2, prod // n_t0)
+        n_t = prod // n_nz
+        if side > 0:
+            n_t += 1
+        elif side < 0 and n_nz * n_t >= prod:
+            n_t -= 1
+        n_t = max(n_t, 2)
+        actual = n_nz * n_t
+    case = {'kind': 'large', 'seed': int(rng.integers(1 << 30)), 'n_nz': int(n_nz), 'n_targets': n_t, 'with_zero': bool(rng.random() < 0.6),
+            'df': float(10 ** rng.uniform(-3, 0)), 'spec_kind': ['abs-noise', 'complex', 'decay'][int(rng.integers(3))],
+            'band': draw_band(rng)[0], 'const': float(rng.choice([3.0, 0.3, 123456.789])), 'product': int(actual), 'e': e, 'side': side}
+    return case, 'large:%s:2**%d%s' % (mode, e, {-1: '-', 0: 'x1.4', 1: '+'}[side])
+
+
+def run_large_case(eqsig, ctx, c):
+    r = np.random.default_rng(c['seed'])
+    n_nz = c['n_nz']
+    fnz = np.arange(1, n_nz + 1) * c['df']
+    if c['spec_kind'] == 'complex':
+        a = r.normal(size=n_nz) + 1j * r.normal(size=n_nz)
+    elif c['spec_kind'] == 'decay':
+        a = (0.2 + np.abs(r.normal(size=n_nz))) / (1.0 + fnz / fnz[min(20, n_nz - 1)]) ** 1.5
+    else:
+        a = np.abs(r.normal(size=n_nz)) + 0.01
+    if c['n_targets'] is None:
+        targets = None
+        n_t = n_nz
+    else:
+        n_t = c['n_targets']
+        k_on = min(16, n_t // 4)
+        k_out = min(8, n_t // 8)
+        inside = 10 ** r.uniform(np.log10(fnz[0]), np.log10(fnz[-1]), size=n_t - k_on - 2 * k_out)
+        targets = np.sort(np.concatenate([inside, fnz[r.integers(0, n_nz, size=k_on)], fnz[0] / 3 * 10 ** r.uniform(-1, 0, size=k_out),
+                                          3 * fnz[-1] * 10 ** r.uniform(0, 1, size=k_out)]))
+    if c.get('with_zero'):
+        freqs = np.concatenate([[0.0], fnz])
+        spec = np.concatenate([[a[0] * 7], a])
+    else:
+        freqs, spec = fnz, a
+    band = c['band']
+    bkw = {} if band is None else {'band': band}
+    mags = np.abs(a)
+    scale = float(mags.max())
+    ctx.observe('large-cases:product-%s-2**22' % ('above' if n_nz * n_t > 2 ** 22 else 'at-or-below'))
+
+    def direct(sp):
+        if targets is None:
+            return _call(ctx, 'smooth==weighted-mean' + LARGE_SFX, 'calc_smooth_fa_spectrum', eqsig.calc_smooth_fa_spectrum, freqs, sp, **bkw)
+        return _call(ctx, 'smooth==weighted-mean' + LARGE_SFX, 'calc_smooth_fa_spectrum', eqsig.calc_smooth_fa_spectrum, freqs, sp, targets, **bkw)
+
+    ok, base = direct(spec)                   # monitored: oracle on the target subset, finite, bounds on every target
+    if not ok:
+        return
+    base = np.array(base, copy=True)
+    cv = c.get('const', 3.0)
+    ok, rc = direct(np.full(len(freqs), cv))
+    if ok:
+        rc = np.asarray(rc)
+        exp = np.full(rc.shape, abs(cv))
+        ctx.check(tol.close(rc, exp, scale=abs(cv), rtol=1e-12), 'relation.constant-reproduced(large)',
+                  lambda: _wit('relation.constant', got=rc[:4096], const=cv),
+                  'constant spectrum %r not reproduced (n_fa=%d, n_targets=%d): %s'
+                  % (cv, n_nz, n_t, tol.describe(rc, exp, scale=abs(cv), rtol=1e-12)))
+    ok, rs = direct(spec * 2.0)
+    if ok:
+        rs = np.asarray(rs)
+        ctx.check(rs.shape == base.shape and np.array_equal(rs, 2.0 * base), 'relation.scaling-pow2-exact(large)',
+                  lambda: _wit('relation.scaling', got=rs[:4096], expected=(2.0 * base)[:4096]),
+                  'smoothing of 2*A is not exactly 2 * smoothing of A (n_fa=%d, n_targets=%d)' % (n_nz, n_t))
+    del rc, rs
+    if targets is None:
+        ok, m = _call(ctx, 'matrix==window/sum' + LARGE_SFX, 'calc_smoothing_matrix_konno_1998', eqsig.calc_smoothing_matrix_konno_1998, freqs, **bkw)
+    else:
+        ok, m = _call(ctx, 'matrix==window/sum' + LARGE_SFX, 'calc_smoothing_matrix_konno_1998', eqsig.calc_smoothing_matrix_konno_1998, freqs, targets, **bkw)
+    if ok:
+        m = np.asarray(m)
+        if m.ndim == 2 and m.shape[0] == n_nz:
+            via = np.dot(mags, m)
+            ctx.check(tol.close(via, base, scale=scale, rtol=RTOL), 'relation.matrix-form==direct-form(large)',
+                      lambda: _wit('relation.matrix-form', via_matrix=via[:4096], direct=base[:4096]),
+                      '|A|.M differs from the direct form (n_fa=%d, n_targets=%d): %s' % (n_nz, n_t, tol.describe(via, base, scale=scale, rtol=RTOL)))
+        else:
+            ctx.violation('relation.matrix-form==direct-form(large)', _wit('relation.matrix-form', shape=list(m.shape)),
+                          'matrix shape %s does not fit %d amplitudes' % (m.shape, n_nz))
+    del m
+    _MEMO.clear()
+
+
 def run_case(eqsig, ctx, case):
     global CASE
     CASE = case
@@ -1568,6 +1737,8 @@ def run_case(eqsig, ctx, case):
                 run_signal_case(eqsig, ctx, case)
             elif kind == 'history':
                 run_history_case(eqsig, ctx, case)
+            elif kind == 'large':
+                run_large_case(eqsig, ctx, case)
             else:
                 run_func_case(eqsig, ctx, case)
     finally:
@@ -1576,10 +1747,13 @@ def run_case(eqsig, ctx, case):
 
 N_CASES = {'quick': (1440, 480, 320), 'thorough': (28800, 9600, 6400)}    # (func, signal, history) cases over all shards
 LONG_N = 70000                                                            # > 2**16 samples -> 65536 Fourier bins
+LARGE_SIGNAL_N = 170000                                                   # 131072 bins x the default 50 smoothing frequencies > 2**22
 LONG_N_FUNC = 140000                                                      # -> 131072 Fourier bins (> 2**16 bins)
 
 
 def _sample_of(case, cls):
+    if case['kind'] == 'large':
+        return dict(case, **{'class': cls})
     if case['kind'] == 'func':
         return {'kind': 'func', 'n_freqs': None if case['freqs'] is None else len(case['freqs']),
                 'freq_dtype': None if case['freqs'] is None else str(np.asarray(case['freqs']).dtype),
@@ -1614,13 +1788,32 @@ def run_shard(ctx):
             plan.insert(3, 'long-func')
         if ctx.shard % 8 == 2:
             plan.insert(3, 'long-signal')
+        if ctx.shard == 6:
+            plan.insert(3, 'large-signal')
     else:
         plan[3:3] = ['long-func', 'long-signal', 'long-func']
+        if ctx.shard % 4 == 2:
+            plan.insert(3, 'large-signal')
+    # large problems (n_fa * n_targets = 2**18 .. 2**23 quick / 2**24 thorough) only on every 4th shard: the library
+    # builds several n_fa x n_targets float64 temporaries
+    large = []
+    if ctx.shard % 4 == 0:
+        j = ctx.shard // 4
+        large = LARGE_QUICK[3 * j:3 * j + 3]
+        if ctx.tier != 'quick':
+            modes = ['none', 'many-targets', 'long-record']
+            large = list(LARGE_QUICK) + [(int(rng.integers(18, 25)), int(rng.integers(-1, 2)), modes[int(rng.integers(3))]) for _ in range(12)]
+            large = [(e, (-1 if e == 24 else sd), md) for e, sd, md in large]
+    plan[2:2] = [('large',) + t for t in large]
     for kind in plan:
         if ctx.out_of_time():
             ctx.observe('stopped-by-budget')
             break
-        if kind == 'signal':
+        if isinstance(kind, tuple):
+            case, cls = gen_large_case(rng, kind[1], kind[2], kind[3])
+        elif kind == 'large-signal':
+            case, cls = gen_signal_case(rng, long_n=LARGE_SIGNAL_N, default_targets=True)
+        elif kind == 'signal':
             case, cls = gen_signal_case(rng)
         elif kind == 'history':
             case, cls = gen_history_case(rng)
@@ -1631,7 +1824,7 @@ def run_shard(ctx):
         else:
             case, cls = gen_func_case(rng)
         parts = cls.split(':')
-        hist_cls = ':'.join(parts[:2]) if case['kind'] != 'signal' else ':'.join(parts[::2])
+        hist_cls = cls if case['kind'] == 'large' else (':'.join(parts[:2]) if case['kind'] != 'signal' else ':'.join(parts[::2]))
         ctx.case(core.digest(case), nontrivial=_nontrivial(case), cls=hist_cls, sample=_sample_of(case, cls))
         run_case(eqsig, ctx, case)
     ctx.note('monitored_calls', dict(attach.CALLS))
@@ -1663,3 +1856,8 @@ MIN_EVALS['quick'] = {
     'relation.constant-reproduced': 750, 'relation.scaling': 600, 'relation.scaling-pow2-exact': 110,
     'purity.arguments-unchanged': 8000, 'purity.signal-state-unchanged': 3500, 'state.held-result-unchanged': 1900}
 MIN_EVALS['thorough'] = {k: 18 * v for k, v in MIN_EVALS['quick'].items()}
+LARGE_MIN = {'smooth==weighted-mean(large: target subset)': 15, 'matrix==window/sum(large: target subset)': 5,
+             'relation.constant-reproduced(large)': 8, 'relation.scaling-pow2-exact(large)': 8,
+             'relation.matrix-form==direct-form(large)': 8}        # the size class n_fa * n_targets = 2**18 .. 2**24
+MIN_EVALS['quick'].update(LARGE_MIN)
+MIN_EVALS['thorough'].update({k: 5 * v for k, v in LARGE_MIN.items()})
